@@ -715,11 +715,22 @@ class Squeeze(Base):
 
     def value(self, st, res, args, kwargs):
         s = st['snaps'][0]
-        if not _std(s) or not _is_tt(res) or not tt_consistent(res)[0]:
+        if not _is_tt(res) or not tt_consistent(res)[0]:
             return
         d = s.order
         keep = [i for i in range(d) if not (s.row_dims[i] == 1 and s.col_dims[i] == 1)]
         if not keep:
+            return
+        if not _std(s):
+            # a block of tensors (open boundary ranks, as tensordot / rank_tensordot / concatenate consume and produce them): the same
+            # statement slice by slice - the boundary indices are not modes and stay
+            from .dense import dense_b_cores
+            D = dense_b_cores(s.cores)
+            want = D.reshape([s.ranks[0]] + [s.row_dims[i] for i in keep] + [s.col_dims[i] for i in keep] + [s.ranks[-1]])
+            got = dense_b_cores(res.cores)
+            fl = float(np.max(np.abs(want))) if want.size else 0.0
+            self.ck('value', got.shape == want.shape and close(got, want, TOL, scale=max(fl, 1e-300)), [s], {'shape': s.shape_sig(), 'boundary_ranks': [s.ranks[0], s.ranks[-1]]},
+                    ['open_boundary_ranks', 'leading_removed' if keep[0] > 0 else 'leading_kept'])
             return
         D = s.dense()
         want = D.reshape([s.row_dims[i] for i in keep] + [s.col_dims[i] for i in keep])
